@@ -68,6 +68,14 @@ def fft_case(draw):
             kw["n"] = draw(st.sampled_from([shape[axes[-1] % rank] - 1, shape[axes[-1] % rank] + 3, 1024]))
         if "s" in kw:
             kw["s"][-1] = draw(st.sampled_from([shape[axes[-1] % rank] - 1, shape[axes[-1] % rank] + 3, 512]))
+    if "s" in kw and draw(st.integers(0, 3)) == 0:
+        kw["s"] = [-1 if draw(st.booleans()) else v for v in kw["s"]]  # -1: "the whole input along that axis", as the reference documents
+    if name not in ONE_D and name not in TWO_D and len(axes) == 1 and draw(st.integers(0, 2)) == 0:
+        # one axis of an n-d transform given as a plain integer (the reference accepts that for `axes` and for `s`)
+        if "axes" in kw:
+            kw["axes"] = axes[0]
+        if "s" in kw and draw(st.booleans()):
+            kw["s"] = kw["s"][0]
     if name in ("irfft", "irfft2", "irfftn", "hfft") and "n" not in kw and "s" not in kw and shape[axes[-1] % rank] < 2:
         # default output length 2*(m-1) = 0: degenerate (the references disagree among themselves: irfft raises, irfft2 returns length 1)
         shape[axes[-1] % rank] = draw(st.integers(2, 6))
@@ -180,6 +188,10 @@ def run_fft(case, stt):
     stt.label("dtype_" + case["dtype"])
     stt.label("rank_%d" % rank)
     stt.label("long_axis" if max(case["shape"]) > 100 else "short_axes")
+    if isinstance(kw.get("s"), tuple) and -1 in kw["s"]:
+        stt.label("s_keeps_a_length")
+    if isinstance(kw.get("s"), int) or isinstance(kw.get("axes"), int):
+        stt.label("scalar_s_or_axes")
 
 
 def enum_names(tier, piece, npieces, stt, seed):
